@@ -5,15 +5,21 @@ mod c02;
 mod c09;
 mod c10;
 mod c10_conn;
+mod c14;
 mod c18;
+mod sinkwalk;
+mod walkprops;
 mod smoke;
 
 pub fn run(opts: &Opts) -> i32 {
     match opts.prop.as_str() {
         "C01" => c01::run(opts),
         "C02" => c02::run(opts),
+        "C05" => walkprops::run(opts, "C05"),
         "C09" => c09::run(opts),
+        "C13" => walkprops::run(opts, "C13"),
         "C10" => c10::run(opts),
+        "C14" => c14::run(opts),
         "C18" => c18::run(opts),
         "smoke" => smoke::run(opts),
         other => {
